@@ -376,6 +376,31 @@ def run_impl(case):
     return res
 
 
+def history_impl(chunk):
+    """Call history inside ONE process: run, run again with the very same argument objects, run another
+    case, run a third time.  Returns per case None when all three results are equal, otherwise the name
+    of the differing run and its result (which then goes through the same predicates)."""
+    import copy
+
+    out = []
+    for j, case in enumerate(chunk):
+        other = chunk[j - 1] if len(chunk) > 1 else case
+        args0 = copy.deepcopy(case)
+        r1 = run_impl(case)
+        r2 = run_impl(case)
+        run_impl(other)
+        r3 = run_impl(case)
+        rec = {"first": r1, "inputs_changed": case != args0}
+        if "timeout" in (r1["status"], r2["status"], r3["status"]):
+            rec["skip"] = True
+        elif r2 != r1:
+            rec.update(name="second run with the same arguments", later=r2)
+        elif r3 != r1:
+            rec.update(name="third run (after another lot)", later=r3)
+        out.append(rec)
+    return out
+
+
 def run_design(case):
     """One full ROWWISE design (BoreFieldData observation point)."""
     os.environ["OMP_NUM_THREADS"] = "1"
@@ -801,6 +826,26 @@ def run(ctx: core.Ctx):
     # ------------------------------------------------------------ run the implementation (pool) and the model
     results = core.pool_map(run_impl, cases, chunksize=4)
     ctx.programs = 6
+    # call histories in one process: a later run of the same case that differs from the first replaces
+    # the single-run result, so that every predicate below judges it
+    hist = [c["id"] for c in cases if c["kind"] in ("gen", "opt", "li") and results[c["id"]]["status"] == "ok" and c.get("guard") is None]
+    hist = hist[:: max(1, len(hist) // (150 if ctx.tier == "quick" else 900))]
+    hchunks = [hist[j:j + 6] for j in range(0, len(hist), 6)]
+    for ch, hr in zip(hchunks, core.pool_map(history_impl, [[cases[i] for i in ch] for ch in hchunks]) if hchunks else []):
+        for i, rec in zip(ch, hr):
+            if rec.get("skip"):
+                continue
+            ctx.count("history: run, run again, other lot, run again")
+            ctx.case(("history", i), True)
+            if rec["first"] != results[i] or rec["inputs_changed"] or "later" in rec:
+                ctx.disagreements_checked += 1
+                if "history-correspondence" not in ctx.broken:
+                    ctx.broken.append("history-correspondence")
+                    ctx.extra["history_first"] = {"case": {k: v for k, v in cases[i].items() if k != "poly"} | {"poly": cases[i]["poly"]},
+                                                  "what": rec.get("name") or ("the caller's arguments were modified in place" if rec["inputs_changed"] else "first run in the history process differs from the single run")}
+            if "later" in rec:
+                results[i] = rec["later"]
+                cases[i]["history"] = rec["name"]
 
     model_lines, model_idx = [], []
     for c in cases:
